@@ -170,8 +170,18 @@ pub fn drive(tier: &str) -> i32 {
     if (run.cases as usize) < total_cases {
         run.capped = true;
     }
+    // history independence: the fixed-string / by-reference, isolation and fill programs after each disturbing prefix
+    let mut dtexts: Vec<String> = vec![];
+    for (kind, dims) in [("fix", 1), ("iso", 1), ("fill", 1), ("fill", 2), ("redim", 1)] {
+        for (prog, _, _) in programs(kind, dims) {
+            dtexts.push(vcore::gprint::print_default(&prog).text);
+        }
+    }
+    let dgroup = super::disturbw::run_group(&mut run, &pool, &dtexts, if quick { 6 } else { 1 }, false);
     let mut ev = Evidence::new("exploration");
-    ev.set("rule", "array shapes: every combination of 1..2 (thorough: 3) dimensions with lower bound in {-2, 0, 1} and extent in {1, 2, 3}, with explicit 'lo TO hi' and (for lower bound 0) without; element types INTEGER, LONG, SINGLE, DOUBLE, STRING, STRING*3 and a record with an INTEGER, a STRING*2 and a nested record. fill: distinct value into every cell in row-major then reverse order, full read-back, LBOUND/UBOUND of every dimension. probe: for every face of the box one index just outside with the others at a corner, read and write (Subscript out of range at the right row), corners inside the box accepted. iso: for boxes of <= 6 cells every ordered pair of writes with a full dump after each. fix: STRING*1 and STRING*3 as variable, record field and array element, assigned strings of length 0..5 directly, through a by-reference $ parameter, by READ, by LINE INPUT and by concatenation, checked with LEN and bracketed PRINT; several array elements, fields of record elements and matrix elements with variable subscripts passed by reference in one call (each write-back lands in its own element);  subscripts of types & ! #; subscripts that are variables first used in the subscript, in plain, record, nested-record and fixed-string element paths. redim: dynamic arrays REDIMmed from one layout to another (shifted lower bound, changed extent of the first or of a later dimension, transposed, the same), every cell written before and after, the first access after the REDIM with the subscripts used last before it, a cell of the old layout that is gone (Subscript out of range); REDIM inside a SUB of an array the module SHARED (the module and the other subprograms see the new bounds and cells) and of a name that is not shared (a local array). big: 18 shapes far beyond that box (vectors of 10 .. 257 cells, lower bounds -128 and 1000, matrices up to 16 x 16 and 2 x 130 / 130 x 2, cubes, 4, 5 and 6 dimensions) — literal fill / read-back for boxes of <= 300 cells, a fill by nested FOR loops with variable subscripts checked cell by cell in the opposite loop order (row-major position recomputed from the subscripts), a probe at every face. bypass: a DIM that control flow goes past without executing it (GOTO over it; in an IF / CASE branch not taken; in a WHILE / FOR body never entered; baseline: executed), in the main module and in a SUB called twice: static arrays (1 and 2 dimensions, elements INTEGER, STRING, records, STRING*3) and records exist and behave as declared, arrays with a computed bound and REDIMmed arrays do not exist yet (Subscript out of range), and the AS types of scalars declared next to them apply; also a DIM SHARED that stands after the first call of a SUB which writes / reads the variable, and a DIM statement whose first variable fails under ON ERROR RESUME NEXT before the record / static array next to it. Each program is judged by the reference semantics; non-trivial = every statement executed (probes: always).");
+    ev.set("groups", json!([dgroup]));
+    ev.assume(super::disturbw::ASSUMPTION);
+    ev.set("rule", "array shapes: every combination of 1..2 (thorough: 3) dimensions with lower bound in {-2, 0, 1} and extent in {1, 2, 3}, with explicit 'lo TO hi' and (for lower bound 0) without; element types INTEGER, LONG, SINGLE, DOUBLE, STRING, STRING*3 and a record with an INTEGER, a STRING*2 and a nested record. fill: distinct value into every cell in row-major then reverse order, full read-back, LBOUND/UBOUND of every dimension. probe: for every face of the box one index just outside with the others at a corner, read and write (Subscript out of range at the right row), corners inside the box accepted. iso: for boxes of <= 6 cells every ordered pair of writes with a full dump after each. fix: STRING*1 and STRING*3 as variable, record field and array element, assigned strings of length 0..5 directly, through a by-reference $ parameter, by READ, by LINE INPUT and by concatenation, checked with LEN and bracketed PRINT; several array elements, fields of record elements and matrix elements with variable subscripts passed by reference in one call (each write-back lands in its own element);  subscripts of types & ! #; subscripts that are variables first used in the subscript, in plain, record, nested-record and fixed-string element paths. redim: dynamic arrays REDIMmed from one layout to another (shifted lower bound, changed extent of the first or of a later dimension, transposed, the same), every cell written before and after, the first access after the REDIM with the subscripts used last before it, a cell of the old layout that is gone (Subscript out of range); REDIM inside a SUB of an array the module SHARED (the module and the other subprograms see the new bounds and cells) and of a name that is not shared (a local array). big: 18 shapes far beyond that box (vectors of 10 .. 257 cells, lower bounds -128 and 1000, matrices up to 16 x 16 and 2 x 130 / 130 x 2, cubes, 4, 5 and 6 dimensions) — literal fill / read-back for boxes of <= 300 cells, a fill by nested FOR loops with variable subscripts checked cell by cell in the opposite loop order (row-major position recomputed from the subscripts), a probe at every face. bypass: a DIM that control flow goes past without executing it (GOTO over it; in an IF / CASE branch not taken; in a WHILE / FOR body never entered; baseline: executed), in the main module and in a SUB called twice: static arrays (1 and 2 dimensions, elements INTEGER, STRING, records, STRING*3) and records exist and behave as declared, arrays with a computed bound and REDIMmed arrays do not exist yet (Subscript out of range), and the AS types of scalars declared next to them apply; also a DIM SHARED that stands after the first call of a SUB which writes / reads the variable, and a DIM statement whose first variable fails under ON ERROR RESUME NEXT before the record / static array next to it. Each program is judged by the reference semantics; non-trivial = every statement executed (probes: always). History independence: the fix / iso / fill / redim programs run after each disturbing prefix (a run-time error trapped while by-reference values wait to be copied back, in the middle of an argument list, ...; see the group) must print and end as they do alone.");
     ev.set("exhaustive", !run.capped);
     ev.set("plan", json!(plan));
     ev.assume("the content of a fixed-length string before its first assignment is not read");
